@@ -82,7 +82,7 @@ func ruleByteWriteSites(w *World, r *Report) {
 			r.OK(key, w.InstrPos(bw.Instr), "destination origins="+o.String())
 		}
 	}
-	r.Expect("[]byte write sites", n, 25)
+	r.Expect("[]byte write sites", n, 16)
 	r.Note("C12-W: %d write sites (%d copy-on-write, %d through parameters)", n, nCow, nParam)
 
 	// caller obligations for written parameters
@@ -410,7 +410,7 @@ func ruleCopyOnWrite(w *World, r *Report) {
 			}
 		}
 	}
-	r.Expect("copy-on-write typestate sites", nSites, 12)
+	r.Expect("copy-on-write typestate sites", nSites, 8)
 }
 
 func isFreshOnly(o Origins) bool {
@@ -612,6 +612,6 @@ func ruleUnsafeInventory(w *World, r *Report) {
 			}
 		}
 	}
-	r.Expect("source files scanned for unsafe/cgo/linkname", nFiles, 45)
+	r.Expect("source files scanned for unsafe/cgo/linkname", nFiles, 26)
 	r.Expect("functions using unsafe", nUses, 2)
 }
